@@ -959,6 +959,9 @@ mutant('LC3-predicate-probes-with-swapped-arguments', ['C17', 'C05'], [
 mutant('U1-cursor-abstraction-swaps-current-and-new', ['C15'], [
     ('src/scheduler/cursor.rs', "        AtomicUsize::compare_exchange_weak(self, current, new, success, failure)", "        AtomicUsize::compare_exchange_weak(self, new, current, success, failure)"),
 ], ['|U1|'])
+mutant('P2-facade-sstore-swaps-key-and-value', ['C11'], [
+    ('src/precompile.rs', "        match self.internals.sstore(address, key, value) {", "        match self.internals.sstore(address, value, key) {"),
+], ['|P2|'])
 mutant('LC5-validate-stale-test-inverted', ['C05'], [(S, """        if tx_state.incarnation != incarnation {
             self.abort(AbortReason::ParallelError {
                 txid,
